@@ -2,7 +2,7 @@
    a case is an operation name and a list of generic arguments; the answer is a generic
    output value.  The OCaml driver (eval/driver.ml) only parses / prints these types. *)
 From Coq Require Import String.
-From ArrRs Require Import Base Arr Index Axis Broadcast Lift Split Reduce Sort Join Reorder.
+From ArrRs Require Import Base Arr Index Axis Broadcast Lift Split Reduce Sort Join Reorder Edit.
 Open Scope string_scope.
 Open Scope list_scope.
 
@@ -376,9 +376,31 @@ Definition table_reorder : list (string * (list arg -> out)) :=
        | [AA s e; AZ k; AL ax] => orarr (rot90 0%Z (mka s e) (Z.to_nat k) ax) | _ => OBad end)
   ].
 
+(* ---- C13: delete, insert, repeat, trim ---- *)
+Definition table_edit : list (string * (list arg -> out)) :=
+  [ ("delete", fun args => match args with
+       | [AA s e; AL idx; ax] => match optn ax with
+           | Some ax => orarr (delete 0%Z (mka s e) (nats idx) ax) | None => OBad end
+       | _ => OBad end)
+  ; ("insert", fun args => match args with
+       | [AA s e; AL idx; AA s2 e2; AN] => orarr (insert_flat 0%Z (mka s e) (nats idx) (mka s2 e2))
+       | _ => OBad end)
+  ; ("insert_entry", fun args => match args with
+       | [AA s e; AL idx; AA s2 e2; AZ ax] =>
+         match insert_axis_entry (mka s e) (nats idx) (Z.to_nat ax) with
+         | Ok _ => OZ 1 | Err e => OErr e | Panic => OPanic | Fuel => OFuel end
+       | _ => OBad end)
+  ; ("trim_zeros", fun args => match args with
+       | [AA s e] => orarr (trim_zeros (Z.eqb 0) (mka s e)) | _ => OBad end)
+  ; ("repeat", fun args => match args with
+       | [AA s e; AL reps; ax] => match optn ax with
+           | Some ax => orarr (repeat_arr 0%Z (mka s e) (nats reps) ax) | None => OBad end
+       | _ => OBad end)
+  ].
+
 Definition table : list (string * (list arg -> out)) :=
   table_index ++ table_axis ++ table_broadcast ++ table_ew2 ++ table_ew1 ++ table_ops ++ table_reduce ++ table_sort
-  ++ table_join ++ table_reorder.
+  ++ table_join ++ table_reorder ++ table_edit.
 
 Fixpoint lookup (name : string) (t : list (string * (list arg -> out))) : option (list arg -> out) :=
   match t with
